@@ -344,6 +344,28 @@ pub fn generate(prop: &str, rng: &mut Rng, plan: &mut Plan, index: u64) {
         plan.add_program(&name, ops);
         c.progs.push(name);
     }
+    // the text-returning variant over real text: valid UTF-8 that ends (or is cut) inside a character
+    if c.api == CommApi::Text && rng.chance(1, 2) {
+        for ops in plan.programs.iter_mut() {
+            for op in ops.iter_mut() {
+                match op {
+                    Op::Write { stream, .. } | Op::Flood { stream, .. } | Op::Trickle { stream, .. } => *stream += 200,
+                    Op::Amplify { so, se, .. } => {
+                        *so += 200;
+                        *se += 200;
+                    }
+                    Op::Daemon { prog } => {
+                        for o in prog.iter_mut() {
+                            if let Op::Write { stream, .. } = o {
+                                *stream += 200;
+                            }
+                        }
+                    }
+                    _ => {}
+                }
+            }
+        }
+    }
     // the thread-based communicator: every 5th run, driven through communicate_start-like reads
     if index % 5 == 4 && !pipeline {
         c.thread_variant = true;
